@@ -532,9 +532,14 @@ template<class T> constexpr T spice(T*t) {return *t;}
 
 //Array ops
 
+//The index starts where the port's name has its '#'; a digit that belongs to
+//the name itself is not an index
 #define rBOILS_BEGIN rBOIL_BEGIN \
             const char *mm = msg; \
-            while(*mm && !isdigit(*mm)) ++mm; \
+            const char *pp = data.port->name; \
+            while(*pp && *pp != '#' && *pp == *mm) ++pp, ++mm; \
+            if(*pp != '#') \
+                for(mm = msg; *mm && !isdigit(*mm); ++mm); \
             unsigned idx = atoi(mm);
 
 #define rBOILS_END rBOIL_END
